@@ -445,7 +445,7 @@ func (p *Parser) ParseWithPositions(result *ConversionResult) (*ast.AST, error) 
 		stmt, err := p.parseStatement()
 		if err != nil {
 			ast.ReleaseAST(astResult)
-			return nil, err
+			return nil, p.locateError(err)
 		}
 		astResult.Statements = append(astResult.Statements, stmt)
 
